@@ -138,11 +138,28 @@ GeSubOk ==
 StartOk == Ok(SubReduceB(NielsE, NielsE)) /\ Ok(AddReduceB(NielsE, NielsE)) /\ Ok(MulB(NielsE, Const))
 MontOk  == LET s == AddB(Coord, Coord)  d == SubB(Coord, Coord) IN Ok(s) /\ Ok(d) /\ Ok(SquareB(B(d))) /\ Ok(MulB(B(s), MulOut))
 
+
+\* UnpackNegativeVartime / Pack (ge25519.go:294-357): the decode formula and the encode formula
+UnpackOk ==
+    LET y == Masked   one == Masked
+        num0 == SquareB(y)            den0 == MulB(B(num0), Const)
+        num == SubReduceB(B(num0), one)   den == AddB(B(den0), one)
+        t == SquareB(B(den))          d3 == MulB(B(t), B(den))
+        x0 == SquareB(B(d3))          x1 == MulB(B(x0), B(den))      x2 == MulB(B(x1), B(num))
+        x3 == SquareB(B(x2))          \* PowTwo252m3: squarings and multiplications of Mul outputs
+        x4 == MulB(MulOut, B(d3))     x5 == MulB(B(x4), B(num))
+        t2 == SquareB(B(x5))          t3 == MulB(B(t2), B(den))
+        root == SubReduceB(B(t3), B(num))   t4 == AddReduceB(B(t3), B(num))
+        x6 == MulB(B(x5), Const)      xn == NegB(MulOut)
+    IN  /\ Ok(num0) /\ Ok(den0) /\ Ok(num) /\ Ok(den) /\ Ok(t) /\ Ok(d3) /\ Ok(x0) /\ Ok(x1) /\ Ok(x2) /\ Ok(x3) /\ Ok(x4) /\ Ok(x5)
+        /\ Ok(t2) /\ Ok(t3) /\ Ok(root) /\ Ok(t4) /\ Ok(x6) /\ Ok(xn) /\ Ok(MulB(B(xn), y)) /\ Ok(MulB(MulOut, y))
+PackOk == Ok(SquareB(Coord)) /\ Ok(MulB(MulOut, Coord)) /\ Ok(MulB(Coord, MulOut))
+
 \* control: three additions in a row feed Mul
 ThreeAddsOk == LET s == [k \in 1..NL |-> 4096] IN Ok(MulB(s, s))
 TwoSubABOk == LET s == SubRB(B(SubRB(B(AddB(Coord, Coord)), Coord)), Coord) IN Ok(MulB(B(s), B(s)))
 
-AllOk == /\ Ok(NegB(Masked)) /\ AddP1p1Ok /\ DoubleP1p1Ok /\ NielsAdd2P1p1Ok /\ PnielsAddP1p1Ok /\ NielsAdd2Ok /\ PnielsAddOk /\ GeSubOk /\ StartOk /\ MontOk
+AllOk == /\ Ok(NegB(Masked)) /\ AddP1p1Ok /\ DoubleP1p1Ok /\ NielsAdd2P1p1Ok /\ PnielsAddP1p1Ok /\ NielsAdd2Ok /\ PnielsAddOk /\ GeSubOk /\ StartOk /\ MontOk /\ UnpackOk /\ PackOk
          /\ (Variant = "three_adds" => ThreeAddsOk) /\ (Variant = "sub_nocarry" => TwoSubABOk)
 
 VARIABLE done
